@@ -337,7 +337,14 @@ func init() {
 			tr.TimersNeverFire = true
 			tr.Workers = 16
 			tr.MaxPaths = 5000000
-			return []*Job{tr, hj("C01.streamid", "H_C01_streamid", "virtual stream ids are injective")}
+			js := []*Job{tr, hj("C01.streamid", "H_C01_streamid", "virtual stream ids are injective")}
+			if tier == "thorough" {
+				pr := hj("C01.tree-preempt", "H_C01_tree", "healthy scripted sender, schedules with one preemption of a goroutine at a select")
+				pr.Threads, pr.TimersNeverFire, pr.Workers, pr.MaxPaths = true, true, 16, 5000000
+				pr.Preempt, pr.PreemptAt = 1, "select"
+				js = append(js, pr)
+			}
+			return js
 		},
 	})
 
@@ -358,7 +365,14 @@ func init() {
 			r.TimersNeverFire = true
 			r.Workers = 16
 			r.MaxPaths = 5000000
-			return []*Job{r}
+			js := []*Job{r}
+			if tier == "thorough" {
+				pr := hj("C02.receiver-preempt", "H_C02_receiver", "faulty scripted sender, schedules with one preemption of a goroutine at a select")
+				pr.Threads, pr.TimersNeverFire, pr.Workers, pr.MaxPaths = true, true, 16, 5000000
+				pr.Preempt, pr.PreemptAt = 1, "select"
+				js = append(js, pr)
+			}
+			return js
 		},
 	})
 
